@@ -157,7 +157,8 @@ fn window_level_linear(value: f64, window_width: f64, window_center: f64, y_max:
         y_max
     } else {
         // else y = ((x - (c - 0.5)) / (w-1) + 0.5) * (ymax- ymin) + ymin
-        ((value - (wc - 0.5)) / (ww - 1.) + 0.5) * y_max
+        // (rounding errors must not take the result out of the output range)
+        (((value - (wc - 0.5)) / (ww - 1.) + 0.5) * y_max).clamp(0., y_max)
     }
 }
 
@@ -179,7 +180,8 @@ fn window_level_linear_exact(value: f64, window_width: f64, window_center: f64, 
         y_max
     } else {
         // else y = ((x - c) / w + 0.5) * (ymax - ymin) + ymin
-        ((value - wc) / ww + 0.5) * y_max
+        // (rounding errors must not take the result out of the output range)
+        (((value - wc) / ww + 0.5) * y_max).clamp(0., y_max)
     }
 }
 
